@@ -24,10 +24,10 @@ class NNS(V.Family):
             "return, signer class, name level, record type, via-contract, state changed) tuples")
     tiers = {
         "quick": dict(mc=[("NNSMC.tla", "NNS_quick.cfg")], mc_timeout=900,
-                      sim=("NNSMC.tla", "NNS_sim.cfg", 150, 31), sim_keep=100, nrand=100, shards=6),
+                      sim=("NNSMC.tla", "NNS_sim.cfg", 150, 31), sim_keep=60, nrand=140, shards=6),
         "thorough": dict(mc=[("NNSMC.tla", "NNS_thorough.cfg"), ("NNSMC.tla", "NNS_thorough_own.cfg"),
                              ("NNSMC.tla", "NNS_thorough_rec.cfg")], mc_timeout=3000,
-                         sim=("NNSMC.tla", "NNS_sim.cfg", 3000, 31), sim_keep=2500, nrand=2500, shards=14),
+                         sim=("NNSMC.tla", "NNS_sim.cfg", 3000, 31), sim_keep=1500, nrand=3500, shards=14),
     }
 
     def nontrivial_key(self, r, prev):
